@@ -120,3 +120,41 @@ def sample_cases(cases, impl, n=4):
         out.append({"id": c.cid, "handler": c.handler, "epoch": c.epoch, "tags": list(c.tags), "input_hex": c.data[:48].hex() + ("..." if len(c.data) > 48 else ""),
                     "len": len(c.data), "class": r[0] if r else None})
     return out
+
+
+def domain_pass(ctx, cases, impl, handlers, theorem, accepted=("Replaced", "Rewritten", "Noop")):
+    """How much of what is sampled does `theorem` speak about?  An extracted predicate decides, per input, whether
+    the hypotheses of the theorem hold for it (dom) and whether its conclusion holds on the model's output (rr).
+    dom without rr would contradict the soundness lemma of the predicate; inputs outside the domain are judged
+    by the oracles on the implementation's output only."""
+    from framework import Case, run_model
+    dcases = [Case(c.cid, c.handler + "-domain", c.epoch, c.data, mtime=c.mtime, tags=c.tags) for c in cases if c.handler in handlers]
+    res = run_model(ctx, dcases, release=(ctx.tier == "thorough"))
+    counts = {}
+    bad, outside_fail = [], []
+    acc_in, acc, judged = 0, 0, 0
+    for c in dcases:
+        r = res.get(c.cid)
+        cls = r[0] if r else "missing"
+        counts[cls] = counts.get(cls, 0) + 1
+        i = impl.get(c.cid)
+        if cls.startswith("Dom") and cls != "DomNone":
+            judged += 1
+            if i is not None and i[0] in accepted:
+                acc += 1
+                if cls == "Dom11":
+                    acc_in += 1
+        if cls in ("Dom10", "missing"):
+            bad.append(c)
+        if cls == "Dom00":
+            outside_fail.append(c)
+    dist = ", ".join("%s=%d" % kv for kv in sorted(counts.items()))
+    ctx.oblige("domain: no sampled input meets the hypotheses of %s while the conclusion fails on the model's output (extracted predicate on %d inputs: %s)"
+               % (theorem, len(dcases), dist), not bad, "; ".join("%s tags=%s" % (c.cid, ",".join(c.tags)) for c in bad[:5]))
+    ctx.oblige("domain: %s covers the inputs the handler rewrites (%d of %d such inputs are inside its domain)" % (theorem, acc_in, acc),
+               acc == 0 or acc_in * 10 >= acc * 9, "only %d of %d inputs are inside the domain of the theorem" % (acc_in, acc))
+    if outside_fail:
+        ctx.notes.append("%d input(s) outside the domain of %s on which the model's output does not read back (left to the oracle on the implementation's output): %s"
+                         % (len(outside_fail), theorem, ", ".join("%s[%s]" % (c.cid, ",".join(c.tags)) for c in outside_fail[:5])))
+    ctx.coverage["theorem_domain"] = counts
+    return counts
